@@ -194,11 +194,11 @@ class SqlStorage(MutableMapping):
             with sqlite3.connect(self.dbfile) as db:
                 names = {}
                 if return_metadata:
-                    for dbid, name, uri in db.execute("SELECT id, name, uri FROM pyro_names WHERE name LIKE ?", (prefix + '%',)).fetchall():
+                    for dbid, name, uri in db.execute("SELECT id, name, uri FROM pyro_names WHERE substr(name, 1, ?) = ?", (len(prefix), prefix)).fetchall():
                         metadata = {m[0] for m in db.execute("SELECT metadata FROM pyro_metadata WHERE object=?", (dbid,)).fetchall()}
                         names[name] = uri, metadata
                 else:
-                    for name, uri in db.execute("SELECT name, uri FROM pyro_names WHERE name LIKE ?", (prefix + '%',)).fetchall():
+                    for name, uri in db.execute("SELECT name, uri FROM pyro_names WHERE substr(name, 1, ?) = ?", (len(prefix), prefix)).fetchall():
                         names[name] = uri
                 return names
         except sqlite3.DatabaseError as e:
@@ -218,6 +218,7 @@ class SqlStorage(MutableMapping):
                           .format(seq=",".join(['?'] * len(metadata_any)))
                 else:
                     # all of the given metadata
+                    metadata_all = set(metadata_all)    # duplicates in the argument must not be counted twice
                     params = list(metadata_all)
                     params.append(len(metadata_all))
                     sql = "SELECT id, name, uri FROM pyro_names WHERE id IN (SELECT object FROM pyro_metadata WHERE metadata IN ({seq}) " \
